@@ -125,6 +125,11 @@ def gen_op(rnd: random.Random, M, c, counter):
         gs = list(dict.fromkeys(some(rnd.randint(1, 2), inner))) if inner else []
         name = rnd.choice(blocks) if (bad and blocks) else fresh()
         os_ = gs[-1:] + (['missing'] if bad and not blocks else [])
+        if gs and rnd.random() < 0.3:
+            # the declared outputs of a block need not be members: a gate outside that reads a member (remove_block must notice it)
+            readers = [u for g_ in gs for u in d['_gate_to_users'].get(g_, []) if u not in gs]
+            if readers:
+                os_ = os_ + [rnd.choice(readers)]
         kw = {'inputs': some(1)} if rnd.random() < 0.3 else {}
         return 'make_block', (name, gs, os_), kw, f'make_block({name!r}, {gs}, {os_}, {kw})'
     if kind == 'slice':
@@ -336,6 +341,41 @@ def fold_histories(ck: Checker, R: str, only=None):
     ck.notes['history_calls'] = n_calls
     ck.notes['history_calls_returned'] = n_ok
     ck.assume('histories of public mutations are folded for bounded length over small model circuits with seeded argument choices; a refused call is not required to leave the state untouched')
+
+
+def fold_copy_convert(ck: Checker, R: str):
+    """Conversion of a copy (what drawing with as_bench=True does): the copy is converted, the original -- its gates, users
+    index and the member lists of its blocks -- is exactly what it was."""
+    repo = ck.repo
+    M = real_model(repo)
+    mod = M.mod
+    fn = mod.func('Circuit.into_bench')
+    probs = []
+    n = 0
+    for spec, outs, blocks in STARTS + [
+        ([('a', 'INPUT', ()), ('b', 'INPUT', ()), ('g', 'LT', ('a', 'b')), ('h', 'GEQ', ('g', 'a')), ('t', 'ALWAYS_TRUE', ()), ('k', 'LNOT', ('h', 't'))], ('k', 'g'),
+         (('B', ('a', 'b'), ('g', 'h'), ('h',)), ('C', ('h',), ('t', 'k'), ('k',)))),
+    ]:
+        n += 1
+        c = M.new_circuit(spec, outs, blocks)
+        before = cm.snapshot(c)
+        cp, err = M.call(c, '__copy__')
+        if err:
+            probs.append(f'copying raises {err}')
+            continue
+        _, err = M.call(cp, 'into_bench')
+        if err:
+            probs.append(f'into_bench on a copy raises {err}')
+            continue
+        after = cm.snapshot(c)
+        if after != before:
+            diff = [k for k in before if before[k] != after[k]]
+            probs.append(f'converting a copy changed the original: {diff[0]} = {after[diff[0]]} instead of {before[diff[0]]}')
+        elif problems(cp):
+            probs.append(f'the converted copy is malformed: {problems(cp)[0]}')
+    ck.add_coverage(M.interp)
+    ck.check(not probs, R, mod, fn, f'into_bench on a copy leaves the original untouched -- gates, users index, block member lists ({n} circuits with blocks around gates that need helper gates)', '; '.join(probs[:2]),
+             construct='copy.copy(circuit).into_bench()')
 
 
 def fold_replace_cases(ck: Checker, R: str):
